@@ -105,6 +105,9 @@ def run(chk, tier):
         pr = pl.PoolRun(env, kind, case, names, core.SEED + q)
         serial = pr.fresh_serial()
         record_outputs(env, OWN, pr, serial)
+        if q % 3 == 0:
+            # pre-history: the same cube object has already seen a pooled evaluation that was interrupted
+            pr.evaluate("pool", P=2, faults={1, pr.T}, sched_seed=q, switch_prob=0.1, hard=bool(q % 2))
         for s in range(n_sched):
             P = rnd.choice([1, 2, 2, 3, 4])
             script = None
@@ -118,6 +121,7 @@ def run(chk, tier):
             tr["sameasserial"] = outs is not None and pl.same_bits(outs, serial)
             traces.append(tr)
             meta[tid] = {"cube": kind, "aggregates": names, "P": P, "tasks": pr.T, "scripted": script is not None,
+                         "cube_had_an_interrupted_pooled_run_before": q % 3 == 0,
                          "case": case.describe(), "exc": getattr(pr, "last_exc", None)}
             steps += tr["steps"]
             switches += tr["switches"]
